@@ -410,6 +410,29 @@ def rule_clamp(ctx):
         r.ok("_compute_number_svals_to_keep_numba[lower clamp]")
     else:
         r.bad(Finding("clamp", g.qualname, "does not return max(n_chi, 1) on every path", where=f"{m.relpath}:{g.lineno}", operand="lower clamp"))
+    # sibling agreement: both implementations count on the *full* spectrum and then apply min(., max_bond)
+    for fn in ("_trim_and_renorm_svd_result", "_trim_and_renorm_svd_result_numba"):
+        h = ctx.prog.func(DECOMP, fn)
+        whereh = f"{m.relpath}:{h.lineno}"
+        upper = False
+        for guards, node in _walk_with_guards(h.node.body, []):
+            if isinstance(node, ast.Assign) and isinstance(node.value, ast.Call) and dotted(node.value.func) == "min" \
+                    and {src_of(a) for a in node.value.args} == {src_of(node.targets[0]), "max_bond"} and any(_implies_positive(g_, "max_bond") for g_ in guards):
+                upper = True
+        if upper:
+            r.ok(f"{fn}[min(n, max_bond) under max_bond > 0]")
+        else:
+            r.bad(Finding("clamp", fn, "the dynamically chosen rank is not clamped with min(n, max_bond) under `max_bond > 0`", where=whereh, operand="upper clamp"))
+        for c in ast.walk(h.node):
+            if isinstance(c, ast.Call) and dotted(c.func) == "_compute_number_svals_to_keep_numba":
+                a0 = c.args[0]
+                if isinstance(a0, ast.Name):
+                    r.ok(f"{fn}[count on full spectrum]", sample={"call": src_of(c)[:70]})
+                else:
+                    r.bad(Finding("clamp", fn,
+                                  f"the cutoff rule is evaluated on `{src_of(a0)}` (line {c.lineno}) instead of the full spectrum: for the cumulative "
+                                  f"modes the weight beyond the slice is not counted, so the kept rank is no longer the smallest satisfying the rule",
+                                  where=whereh, operand="count-scope"))
     # slices by max_bond must sit under a positive guard
     n = 0
     for fn in ("_trim_and_renorm_svd_result", "_trim_and_renorm_svd_result_numba"):
@@ -500,4 +523,87 @@ def rule_split_flags(ctx):
                     r.ok(f"tensor_split[array_split {p}]")
                 else:
                     r.bad(Finding("split-flags", "tensor_split", f"option `{p}` is not delivered to array_split", where=where, operand="deliver:" + p))
+    return r
+
+
+# ---------------------------------------------------------------- cache-immut
+def rule_cache_immut(ctx):
+    r = RuleResult(
+        "cache-immut",
+        "values returned by functions memoised with functools.cache / lru_cache are shared between all callers: no "
+        "caller may store into, or call a mutator on, a (component of a) result of such a function — e.g. the "
+        "option dict returned by parse_split_opts — otherwise one call's data leaks into later calls",
+    )
+    r.need_controls(0)
+    MUT = {"update", "setdefault", "pop", "popitem", "clear", "append", "extend", "insert", "remove", "add", "discard", "sort", "reverse"}
+    cached = {}
+    for f in ctx.prog.all_functions(nested=False):
+        if f.is_alias or isinstance(f.node, ast.Lambda):
+            continue
+        if any(d and d.split(".")[-1] in ("cache", "lru_cache") for d in f.decorators):
+            # which returned components are mutable containers built in the function?
+            comps = set()
+            defs = {}
+            for n in ast.walk(f.node):
+                if isinstance(n, ast.Assign) and len(n.targets) == 1 and isinstance(n.targets[0], ast.Name):
+                    defs.setdefault(n.targets[0].id, []).append(n.value)
+            def mutable(e):
+                if isinstance(e, (ast.Dict, ast.List, ast.Set, ast.DictComp, ast.ListComp, ast.SetComp)):
+                    return True
+                if isinstance(e, ast.Call) and dotted(e.func) in ("dict", "list", "set", "collections.defaultdict", "defaultdict"):
+                    return True
+                if isinstance(e, ast.Name):
+                    return any(mutable(d) for d in defs.get(e.id, []))
+                return False
+            for n in ast.walk(f.node):
+                if isinstance(n, ast.Return) and n.value is not None:
+                    if isinstance(n.value, ast.Tuple):
+                        for i, e in enumerate(n.value.elts):
+                            if mutable(e):
+                                comps.add(i)
+                    elif mutable(n.value):
+                        comps.add(None)
+            if comps:
+                cached[f.name] = (f, comps)
+    r.floor(len(cached), 1, "memoised functions returning mutable containers")
+    nsites = 0
+    for g in ctx.prog.all_functions(nested=False):
+        if g.is_alias or isinstance(g.node, ast.Lambda):
+            continue
+        shared = {}
+        for n in ast.walk(g.node):
+            if isinstance(n, ast.Assign) and isinstance(n.value, ast.Call):
+                name = (dotted(n.value.func) or "").split(".")[-1]
+                if name in cached and ctx.prog.lookup(g.module, name) is cached[name][0] or (name in cached and g.module is cached[name][0].module):
+                    comps = cached[name][1]
+                    t = n.targets[0]
+                    if isinstance(t, ast.Name) and None in comps:
+                        shared[t.id] = name
+                    elif isinstance(t, (ast.Tuple, ast.List)):
+                        for i, e in enumerate(t.elts):
+                            if i in comps and isinstance(e, ast.Name):
+                                shared[e.id] = name
+        if not shared:
+            continue
+        for n in ast.walk(g.node):
+            hit = None
+            if isinstance(n, (ast.Assign, ast.AugAssign)):
+                ts = n.targets if isinstance(n, ast.Assign) else [n.target]
+                for t in ts:
+                    if isinstance(t, ast.Subscript) and isinstance(t.value, ast.Name) and t.value.id in shared:
+                        hit = (t.value.id, f"store {src_of(t)}")
+            if isinstance(n, ast.Delete):
+                for t in n.targets:
+                    if isinstance(t, ast.Subscript) and isinstance(t.value, ast.Name) and t.value.id in shared:
+                        hit = (t.value.id, f"del {src_of(t)}")
+            if isinstance(n, ast.Call) and isinstance(n.func, ast.Attribute) and n.func.attr in MUT and isinstance(n.func.value, ast.Name) and n.func.value.id in shared:
+                hit = (n.func.value.id, f"{src_of(n.func)}(...)")
+            if hit:
+                nsites += 1
+                r.bad(Finding("cache-immut", g.qualname,
+                              f"mutates `{hit[0]}` ({hit[1]}, line {n.lineno}), which is (part of) the memoised result of {shared[hit[0]]}(): "
+                              f"the change is seen by every later call with the same arguments",
+                              where=f"{g.module.relpath}:{n.lineno}", operand=hit[0]))
+        for nm, fn in shared.items():
+            r.ok(f"{g.qualname}[{nm} <- {fn}]", sample={"caller": g.qualname, "shared value": nm, "from": fn + "()", "mutations": "none"})
     return r
